@@ -31,6 +31,7 @@ for p, more in {
     "C06": ["b64feat"],
     "C07": ["miri"],
     "C12": ["asan", "miri"],
+    "C14": ["b64feat"],
     "C15": ["b64feat", "dev0", "asan", "miri"],
     "C16": ["miri"],
     "C18": ["asan"],
@@ -41,6 +42,7 @@ QUICK_EXTRA = {p: ["release"] for p in ALL}
 QUICK_EXTRA["C02"] += ["b64feat"]
 QUICK_EXTRA["C03"] += ["b64feat"]
 QUICK_EXTRA["C06"] += ["b64feat"]
+QUICK_EXTRA["C14"] += ["b64feat"]
 QUICK_EXTRA["C15"] += ["b64feat", "dev0"]
 
 _built = {}
